@@ -106,6 +106,9 @@ def encode(spec):
 def encode_saf(spec, s, stem):
     east_first = spec.get("east_first", False)
     cols = ["Z", "E", "N"] if east_first else ["Z", "N", "E"]
+    if spec.get("saf_cols"):
+        cols = list(spec["saf_cols"])            # any of the 6 channel layouts
+        east_first = cols.index("E") < cols.index("N")
     ids = {"Z": "V", "N": "N", "E": "E"}
     rot = spec.get("north_rot")
     lines = ["SESAME ASCII data format (saf) v. 1    (this line must not be modified)",
@@ -119,7 +122,9 @@ def encode_saf(spec, s, stem):
     body = [f"{s[cols[0]][i]} {s[cols[1]][i]} {s[cols[2]][i]}" for i in range(spec["n"])]
     text = "\n".join(lines + body) + "\n"
     exp = {c: s[k].astype(np.float32).astype(float) for c, k in (("ns", "N"), ("ew", "E"), ("vt", "Z"))}
-    if rot is None:
+    if cols[0] != "Z":
+        exp["deg"] = None                 # non-standard layout: orientation not judged
+    elif rot is None:
         exp["deg"] = 0.0
     elif east_first:
         exp["deg"] = None                 # meaning of NORTH_ROT for east-first files is not settled by the property
